@@ -22,7 +22,7 @@ type c06Case struct {
 }
 
 var c06Faults = []string{"bad_json", "long_json_line", "long_lines_line", "csv_bare_quote", "csv_field_count", "type_assertion", "panic_fn"}
-var c06Stacks = []string{"join_other_side_empty", "join_other_side_null_keys", "join_other_side_empty_right", "plain", "distinct", "order_by", "nested_order_by", "group_key", "group_arg", "join_left", "join_right", "left_join", "outer_join", "lookup_join_left", "subquery_from", "subquery_expr", "subquery_expr_multi", "distinct_order", "group_then_order", "where_above", "map_above"}
+var c06Stacks = []string{"join_other_side_empty", "join_other_side_null_keys", "join_other_side_empty_right", "plain", "distinct", "order_by", "nested_order_by", "group_key", "group_arg", "join_left", "join_right", "left_join", "outer_join", "lookup_join_left", "subquery_from", "subquery_expr", "subquery_expr_multi", "distinct_order", "group_then_order", "where_above", "map_above", "no_column_count", "no_column_const", "no_column_distinct_const", "no_column_in_subquery", "fail_above_group_by", "fail_above_distinct", "fail_above_nested_order_by", "fail_above_join", "fail_above_left_join"}
 
 // build returns (files with the fault, files without it, sql with fault, sql control, config).
 func (c c06Case) build() (faulty, clean map[string]string, sql, controlSQL, config string) {
@@ -146,6 +146,35 @@ func (c c06Case) build() (faulty, clean map[string]string, sql, controlSQL, conf
 			return "SELECT s.fid AS id, s.fv AS v FROM (" + base + ") s WHERE s.fv IS NOT NULL"
 		case "map_above":
 			return "SELECT (s.fid + s.fid) AS d, s.fv AS v FROM (" + base + ") s"
+		// the failing expression sits ABOVE an operator (fault panic_fn only): the operator's own output callback fails
+		case "fail_above_group_by", "fail_above_distinct", "fail_above_nested_order_by", "fail_above_join", "fail_above_left_join":
+			var inner string
+			switch c.Stack {
+			case "fail_above_group_by":
+				inner = "SELECT t.v AS fv, count(t.id) AS fid FROM " + src + " t GROUP BY t.v"
+			case "fail_above_distinct":
+				inner = "SELECT DISTINCT t.v AS fv, t.v AS fid FROM " + src + " t"
+			case "fail_above_nested_order_by":
+				inner = "SELECT t.v AS fv, t.id AS fid FROM " + src + " t ORDER BY fid"
+			case "fail_above_join":
+				inner = "SELECT t.v AS fv, o.id AS fid FROM " + src + " t JOIN " + otherSrc + " o ON t.id = o.id"
+			default:
+				inner = "SELECT t.v AS fv, o.id AS fid FROM " + src + " t LEFT JOIN " + otherSrc + " o ON t.id = o.id"
+			}
+			bad := "panic('boom')"
+			if w == cwhere {
+				bad = "s.fid"
+			}
+			return "SELECT s.fv AS v, s.fid AS n FROM (" + inner + ") s WHERE NOT ((s.fv = 1.5) AND (" + bad + " IS NULL))"
+		// queries that read no column of the failing file: the rows still have to be read (and a malformed one reported)
+		case "no_column_count":
+			return "SELECT count(*) AS n FROM " + src + " t" + w
+		case "no_column_const":
+			return "SELECT 1 AS one FROM " + src + " t" + w
+		case "no_column_distinct_const":
+			return "SELECT DISTINCT 1 AS one FROM " + src + " t" + w
+		case "no_column_in_subquery":
+			return "SELECT o.w AS w FROM " + otherSrc + " o WHERE 7 IN (SELECT 7 AS seven FROM " + src + " t" + w + ")"
 		}
 		panic("bad stack " + c.Stack)
 	}
@@ -153,6 +182,12 @@ func (c c06Case) build() (faulty, clean map[string]string, sql, controlSQL, conf
 }
 
 func c06Prop(c c06Case) ev.Outcome {
+	if strings.HasPrefix(c.Stack, "no_column") && c.Fault == "type_assertion" {
+		return ev.Outcome{Discard: true} // that fault lives in an expression over a column
+	}
+	if strings.HasPrefix(c.Stack, "fail_above") && (c.Fault != "panic_fn" || c.Rows < 4) {
+		return ev.Outcome{Discard: true} // these shapes place a failing expression themselves
+	}
 	faulty, clean, sql, controlSQL, config := c.build()
 	args := func(q string) []string {
 		a := []string{q, "-o", c.Mode}
@@ -203,7 +238,7 @@ func c06Prop(c c06Case) ev.Outcome {
 func TestC06(t *testing.T) {
 	r := ev.New("C06", "fault_enumeration",
 		"one necessarily-evaluated failure is injected at a generated row position p (before and after the 100-row schema preview): malformed JSON line, JSON line longer than files.json.max_line_size_bytes, a `lines` line longer than the scanner's 64 KiB token limit, CSV bare quote, CSV wrong field count, a value of another kind inside the preview so that v + 1.0 compiles to a run-time type assertion failing at row p, panic('boom') evaluated on exactly row p; "+
-			"the operator stack above the failing source is one of 21 shapes (DISTINCT, ORDER BY top-level/nested, GROUP BY key/argument, inner/left/outer/lookup join on either side incl. joins whose other input ends at once (empty, or NULL keys only), subquery in FROM, single- and multi-column subquery expression, WHERE/map above, combinations) in each of the five output modes, optimised or not; LIMIT is never above the failure. "+
+			"the operator stack above the failing source is one of 30 shapes (for panic(): also evaluated ABOVE a GROUP BY / DISTINCT / nested ORDER BY / inner or left join, so that the operator's own output callback fails; queries that read no column of the failing file - count(*), a constant, DISTINCT constant, IN (subquery of a constant) - DISTINCT, ORDER BY top-level/nested, GROUP BY key/argument, inner/left/outer/lookup join on either side incl. joins whose other input ends at once (empty, or NULL keys only), subquery in FROM, single- and multi-column subquery expression, WHERE/map above, combinations) in each of the five output modes, optimised or not; LIMIT is never above the failure. "+
 			"oracle: exit status != 0 with an Error: line; control: the same query on the same files without the fault exits 0. grid_exhaustive enumerates fault x stack x {json, batch_table} at two positions completely; random draws the rest. non-trivial: at least one operator above the failing source. distinct=(fault, stack, mode, preview side, optimise)")
 	ev.Enumerate(t, r, "grid_exhaustive", func(yield func(c06Case) bool) {
 		for _, f := range c06Faults {
